@@ -20,8 +20,8 @@ _Bool g_sig_next;
 _Bool g_consumer_role;         /* the function under verification is the live consumer (nobody else resets _events) */
 unsigned g_launched, g_exits, g_polls_since_load;
 unsigned long g_fetch_old;
-_Bool g_last_poll_empty;
-static void vf_havoc_ghosts(void) { g_tickets = nondet_u64(); g_cons = nondet_u64(); g_sig_next = nondet_bool(); g_launched = 0; g_exits = 0; g_last_poll_empty = 0; }
+_Bool g_last_poll_empty, g_reset;
+static void vf_havoc_ghosts(void) { g_reset = 0; g_tickets = nondet_u64(); g_cons = nondet_u64(); g_sig_next = nondet_bool(); g_launched = 0; g_exits = 0; g_last_poll_empty = 0; }
 #define G_INV (g_cons <= g_tickets && (g_cons != g_tickets || !g_sig_next))
 
 static void env_step(void) {
@@ -46,6 +46,7 @@ _Bool vf_atomic_compare_exchange_strong_u64(unsigned long *p, unsigned long *exp
   if (p == g_ev) env_step();
   if (*p != *expected) { *expected = *p; return 0; }
   *p = desired;
+  if (p == g_ev && desired == 0) g_reset = 1;      /* the counter was moved to zero atomically from the value the caller had seen */
   if (p == g_ev && site == SITE_EQ_consume_until_empty_events_compare_exchange_strong_1) {
     /* K5: the consumer leaves only right after an empty poll, and then nothing signalled is left behind */
     __CPROVER_assert(g_last_poll_empty, "K5 C16.exit the consumer gives up only after an empty poll");
@@ -85,31 +86,32 @@ void Sched_usleep(unsigned int us) { }
 /* consume_until_empty(): runs as the single live consumer; returns only through the exit CAS */
 void EQ_consume_until_empty(EQ_t *q)
 __CPROVER_requires(EQ_SHAPE(q) && q->_events >= 1 && g_exits == 0)
-__CPROVER_assigns(q->_events, g_tickets, g_cons, g_sig_next, g_exits, g_last_poll_empty)
+__CPROVER_assigns(q->_events, g_tickets, g_cons, g_sig_next, g_exits, g_last_poll_empty, g_reset)
 __CPROVER_ensures(g_exits == 1)
 ;
 //@loop EQ_consume_until_empty 1
-//@  __CPROVER_assigns(events, self->_events, g_tickets, g_cons, g_sig_next, g_exits, g_last_poll_empty)
+//@  __CPROVER_assigns(events, self->_events, g_tickets, g_cons, g_sig_next, g_exits, g_last_poll_empty, g_reset)
 //@  __CPROVER_loop_invariant(events <= self->_events && G_INV && g_exits == 0)
 //@end
 
 /* start_consumer(): returns 0 only after an accepted launch; returns -1 only after it reset the counter to zero */
 int EQ_start_consumer(EQ_t *q)
 __CPROVER_requires(EQ_SHAPE(q) && q->_events >= 1 && g_launched == 0)
-__CPROVER_assigns(q->_events, g_tickets, g_sig_next, g_launched, g_submit_ret)
+__CPROVER_assigns(q->_events, g_tickets, g_sig_next, g_launched, g_submit_ret, g_reset)
 __CPROVER_ensures(__CPROVER_return_value == 0 || __CPROVER_return_value == -1)
 __CPROVER_ensures(__CPROVER_return_value == 0 ==> g_launched == 1)
-__CPROVER_ensures(__CPROVER_return_value == -1 ==> g_launched == 0)
+/* giving up is allowed only by a successful CAS of the counter to zero: otherwise signals counted meanwhile have no consumer */
+__CPROVER_ensures(__CPROVER_return_value == -1 ==> (g_launched == 0 && g_reset))
 ;
 //@loop EQ_start_consumer 1
-//@  __CPROVER_assigns(events, __t1, __t2, self->_events, g_tickets, g_sig_next, g_launched, g_submit_ret)
-//@  __CPROVER_loop_invariant(g_launched == 0 && G_INV)
+//@  __CPROVER_assigns(events, __t1, __t2, self->_events, g_tickets, g_sig_next, g_launched, g_submit_ret, g_reset)
+//@  __CPROVER_loop_invariant(g_launched == 0 && G_INV && !g_reset)
 //@end
 
 /* signal_push_event(): launches a consumer exactly when it moved the counter from 0 to 1 */
 int EQ_signal_push_event(EQ_t *q)
 __CPROVER_requires(EQ_SHAPE(q) && q->_events < (1UL << 62) && g_launched == 0)
-__CPROVER_assigns(q->_events, g_tickets, g_sig_next, g_launched, g_submit_ret, g_fetch_old)
+__CPROVER_assigns(q->_events, g_tickets, g_sig_next, g_launched, g_submit_ret, g_fetch_old, g_reset)
 __CPROVER_ensures(g_launched <= 1)
 /* at most one consumer at a time: a launch is attempted only by the producer that moved the counter from 0 to 1 */
 __CPROVER_ensures(g_fetch_old != 0 ==> (g_launched == 0 && __CPROVER_return_value == 0))
@@ -118,7 +120,7 @@ __CPROVER_ensures((g_fetch_old == 0 && __CPROVER_return_value == 0) ==> g_launch
 /* join(): returns only after observing the counter at zero */
 void EQ_join(EQ_t *q)
 __CPROVER_requires(EQ_SHAPE(q))
-__CPROVER_assigns(q->_events, g_tickets, g_sig_next)
+__CPROVER_assigns(q->_events, g_tickets, g_sig_next, g_reset)
 __CPROVER_ensures(1)
 ;
 #endif
